@@ -401,6 +401,12 @@ def replay_case(case):
     acc = Acc()
     if case.get('kind') == 'reject':
         return run_case(case)
+    if case.get('kind') == 'pool':
+        for x in pool(pe)[case['i']]:
+            bad = compare.wf_any(x, pe)
+            if bad:
+                acc.fail('wf:constructor:' + classify(bad), case, 'initial object malformed: %s' % bad)
+        return acc
     scratch = Acc()
     regs = pool(pe)[case['path'][0][1]]
     for ev in case['path'][1:]:
